@@ -49,7 +49,7 @@ theorem byteOf_toNat (n : Nat) : (byteOf n).toNat = n % 256 := by simp [byteOf]
   omega
 
 @[simp] theorem u32_be (v : BitVec 32) :
-    u32 (byteOf (v.toNat / 16777216)) (byteOf (v.toNat / 65536)) (byteOf (v.toNat / 256)) (byteOf v.toNat) = v := by
+    u32 (byteOf (v.toNat / 256 / 256 / 256)) (byteOf (v.toNat / 256 / 256)) (byteOf (v.toNat / 256)) (byteOf v.toNat) = v := by
   apply BitVec.eq_of_toNat_eq
   have := v.isLt
   simp only [u32, byteOf, BitVec.toNat_ofNat]
